@@ -86,3 +86,24 @@ Proof.
              | exists u0; rewrite ?(upd_other _ _ _ _ Ne); exact Hu ] ]; fail).
 Qed.
 End C2.
+
+Section C3.
+Variable cap : nat.
+Definition by_producer (t : tid) (l : list (tid * val)) : list val :=
+  map snd (filter (fun x => Nat.eqb (fst x) t) l).
+Lemma filter_rev {A} (f : A -> bool) (l : list A) : filter f (rev l) = rev (filter f l).
+Proof.
+  induction l as [|a l IH]; cbn; auto. rewrite filter_app, IH. cbn. destruct (f a); cbn; auto using app_nil_r.
+Qed.
+Lemma per_producer_lemma : forall c, reachable cap c -> forall t,
+  by_producer t (enq c) = rev (by_producer t (puts_in (hist c))).
+Proof.
+  intros c R t. destruct (ghost_reach cap c R) as [E _]. unfold by_producer. now rewrite E, filter_rev, map_rev.
+Qed.
+(** size_ = length items whenever nobody is between its two statements of a commit; in particular when the mutex is free *)
+Lemma size_when_free : forall c, reachable cap c -> mutex c = None -> size_ c = length (items c).
+Proof.
+  intros c R Hm. destruct (inv_B_reach cap c R) as (_ & _ & Hsz & _). apply Hsz. intros t.
+  destruct (mid (pcs c t)) eqn:E; auto. apply mid_cs in E. apply (mutex_inv_reach cap c R) in E. congruence.
+Qed.
+End C3.
